@@ -227,6 +227,7 @@ func Run(c *vk.Ctx) {
 	}
 
 	headers(c, r)
+	keyAmbiguity(c, r)
 
 	if c.Thorough() {
 		for i := 0; i < len(singles); i++ {
